@@ -717,6 +717,19 @@ def c07_cases(tier, seed):
     n = 4000 if tier == "thorough" else 260
     pool = ["one", "two words", "é日", "a b,c", "l1\nl2\nl3", "x", "ab\ncd", "  lead", "tail\n", "\nhead", "w" * 30, "q"]
     cases = []
+    # Up / Down with a count inside a text of several lines: the target column on the FIRST line allows for the prompt
+    for _ in range(max(8, n // 20)):
+        lines = [rand_text(rng, 0, 7, ["a", "b", "c", "d", " ", "é"]) for _ in range(rng.randint(3, 5))]
+        t = "\n".join(lines)
+        k = len(t) - rng.randint(0, len(lines[-1]))
+        mode = rng.choice(["emacs", "vi"])
+        cnt = rng.choice([2, 2, 3, 4, 9])
+        if mode == "emacs":
+            keys = ["M-%d" % cnt, rng.choice(["Up", "Up", "Down"]), "X", "M-%d" % rng.choice([2, 3]), rng.choice(["Down", "Up"]), "Y", "Enter"]
+        else:
+            keys = ["Esc", str(cnt), rng.choice(["k", "k", "-", "j"]), "i", "X", "Esc", str(rng.choice([2, 3])), rng.choice(["j", "k", "+"]), "i", "Y", "Enter"]
+        cases.append(Case(keys, mode=mode, history=["h1", "h2"], initial=(t[:k], t[k:]), timeout=0 if mode == "vi" else rng.choice(["none", 0]),
+                          prompt=rng.choice(["> ", "日> ", "prompt> ", ""]), cols=80))
     for _ in range(n):
         mode = rng.choice(["emacs", "emacs", "vi"])
         hist = [rng.choice(pool) for _ in range(rng.choice([0, 1, 2, 3, 5]))]
@@ -953,15 +966,15 @@ def c06_cases(tier, seed):
                           history=rng.choice([[], ["one", "two"]]),
                           timeout=0 if mode == "vi" else rng.choice(["none", 0]), prompt="> "))
     # more separate kills than the ring has slots (60), then a yank and yank-pops all the way round and beyond
-    for _ in range(max(3, n // 90)):
+    for _ in range(max(6, n // 45)):
         keys = []
-        nk = rng.randint(58, 67)
+        nk = rng.choice([58, 59, 60, 60, 61, 61, 62, 64, 67])
         for i in range(nk):
             keys += ["abcdefghijklmnopqrstuvwxyz"[i % 26], "0123456789"[(i // 26) % 10], "C-w"]
         keys += ["C-y"] + ["M-y"] * rng.choice([1, 2, 5, nk - 60 if nk > 60 else 3, 59, 60, 61, 64])
         if rng.random() < 0.6:
             # a kill after the pointer has been rotated in a full ring: it replaces the OLDEST kill; then all the way round
-            keys += ["z", "z", "C-w", "C-y"] + ["M-y"] * rng.choice([2, 2, 59, 60, 61, 62])
+            keys += ["z", "z", "C-w", "C-y"] + ["M-y"] * rng.choice([2, 59, 60, 60, 61, 62])
         keys.append("Enter")
         cases.append(Case(keys, mode="emacs", timeout=rng.choice(["none", 0]), prompt="> "))
     return cases
@@ -1066,6 +1079,14 @@ def c17_cases(tier, seed):
                  validator=("brackets" if helper and rng.random() < 0.3 else "none"),
                  completion=rng.choice(["circular", "list"]), cols=rng.choice([80, 80, 20]), meta=meta)
         cases.append(c)
+    # list-mode completion over candidates that part INSIDE a multi-byte character (the common prefix is cut back to a boundary)
+    for k in range(max(3, n // 60)):
+        cands = rng.choice([["日本語", "日月"], ["\U0001F600a", "\U0001F601b", "\U0001F600"], ["é日本", "é日月x", "é日"]])
+        keys = [cands[0][0], "Tab", rng.choice(["Tab", "x", "Enter"]), "Enter", "Enter"]
+        chunks = [key_bytes(kk) for kk in keys]
+        mode = rng.choice(["emacs", "vi"])
+        cases.append(Case(keys, mode=mode, timeout=0 if mode == "vi" else rng.choice(["none", 0]), prompt="> ", reads=2, chunks=chunks,
+                          helper=True, cands=cands, completion="list", cols=80, meta={}))
     # vi operators with counts on both sides whose product is beyond the 16-bit repeat count (it saturates)
     for k in range(max(4, n // 25)):
         t = " ".join(rng.choice(["a", "bb", "c,d", "x_y"]) for _ in range(rng.randint(2, 6)))
